@@ -76,7 +76,7 @@ def run(ctx):
             "reload_image_differs": 0, "with_closure_scope": 0, "value_tags": {}}
     for i, (c, o) in enumerate(zip(cases, outs)):
         parts = dict(p.split("=", 1) for p in o.split("\t") if "=" in p)
-        if o == "err timeout":
+        if o.startswith("err timeout"):
             dist["timeouts"] = dist.get("timeouts", 0) + 1      # a slow probe (huge expansion), not a verdict
             continue
         if "img2" not in parts:
